@@ -1,6 +1,7 @@
 import Driver.Pure
 import Driver.TableSuite
 import Driver.B62Suite
+import Driver.CoreSuite
 /-
   vpmodel: reads lines `op<TAB>implementation observation`, prints `model observation<TAB>spec verdict`.
 -/
@@ -8,6 +9,7 @@ open Driver
 
 structure DState where
   table : TableSt := {}
+  core : CoreSt := {}
 
 def stepLine (st : DState) (line : String) : DState × String :=
   let parts := line.splitOn "\t"
@@ -23,6 +25,9 @@ def stepLine (st : DState) (line : String) : DState × String :=
   | none =>
   match tableStep st.table toks implObs with
   | some (ts, m, s) => ({ st with table := ts }, m ++ "\t" ++ s)
+  | none =>
+  match coreStep st.core toks implObs with
+  | some (cs, m, s) => ({ st with core := cs }, m ++ "\t" ++ s)
   | none => (st, "bad-op\t-")
 
 partial def loop (h : IO.FS.Stream) (out : IO.FS.Stream) (st : DState) : IO Unit := do
